@@ -3,6 +3,7 @@ use crate::core::{Ctx, Stats};
 use serde_json::Value;
 
 pub mod c01;
+pub mod c04;
 pub mod c07;
 pub mod c08;
 pub mod c09;
@@ -17,6 +18,7 @@ pub mod c19;
 pub fn run(ctx: &Ctx, st: &mut Stats) -> bool {
     match ctx.prop.as_str() {
         "C01" => c01::run(ctx, st),
+        "C04" => c04::run(ctx, st),
         "C07" => c07::run(ctx, st),
         "C08" => c08::run(ctx, st),
         "C09" => c09::run(ctx, st),
@@ -36,6 +38,7 @@ pub fn run(ctx: &Ctx, st: &mut Stats) -> bool {
 pub fn replay(prop: &str, case: &Value, st: &mut Stats) -> bool {
     match prop {
         "C01" => c01::replay(case, st),
+        "C04" => c04::replay(case, st),
         "C07" => c07::replay(case, st),
         "C08" => c08::replay(case, st),
         "C09" => c09::replay(case, st),
